@@ -15,6 +15,7 @@ import (
 
 	"github.com/prometheus/prometheus/model/histogram"
 	"github.com/prometheus/prometheus/model/labels"
+	"github.com/prometheus/prometheus/model/value"
 	"github.com/prometheus/prometheus/storage"
 	"github.com/prometheus/prometheus/tsdb/chunkenc"
 	"github.com/prometheus/prometheus/tsdb/chunks"
@@ -33,20 +34,220 @@ type smp struct {
 
 func (s smp) String() string { return fmt.Sprintf("%d:%c:%d", s.t, s.kind, s.payload) }
 
+// Histogram payloads: payload = 4*body + counterResetHint,
+// body = zeroCount + b0<<20 + b1<<24 + b2<<28 + schema<<32 + stale<<33 (zeroCount < 2^20, three positive
+// buckets b_i < 16 at indexes 0..2, present iff non-zero, schema 0|1); Count = zeroCount+b0+b1+b2 = Sum;
+// a stale marker is {Sum: StaleNaN}. Bits from 40 up flag a decoded histogram outside this family.
+const (
+	hbSchema = uint64(1) << 32
+	hbStale  = uint64(1) << 33
+	hbBad    = uint64(1) << 40
+)
+
+func hbParts(b uint64) (z uint64, spans []histogram.Span, cs []uint64, cnt uint64) {
+	z = b & (1<<20 - 1)
+	cnt = z
+	last := -1
+	for i := 0; i < 3; i++ {
+		c := (b >> (20 + 4*uint(i))) & 15
+		if c == 0 {
+			continue
+		}
+		if last >= 0 && last == i-1 {
+			spans[len(spans)-1].Length++
+		} else {
+			off := int32(i)
+			if last >= 0 {
+				off = int32(i - last - 1)
+			}
+			spans = append(spans, histogram.Span{Offset: off, Length: 1})
+		}
+		cs = append(cs, c)
+		cnt += c
+		last = i
+	}
+	return z, spans, cs, cnt
+}
+
 func mkHist(p uint64) *histogram.Histogram {
-	id := p / 4
+	b, hint := p/4, histogram.CounterResetHint(p%4)
+	if b&hbStale != 0 {
+		return &histogram.Histogram{CounterResetHint: hint, Sum: math.Float64frombits(value.StaleNaN)}
+	}
+	z, spans, cs, cnt := hbParts(b)
+	var deltas []int64
+	prev := int64(0)
+	for _, c := range cs {
+		deltas = append(deltas, int64(c)-prev)
+		prev = int64(c)
+	}
 	return &histogram.Histogram{
-		CounterResetHint: histogram.CounterResetHint(p % 4),
-		Schema:           0, ZeroThreshold: 0.001, ZeroCount: id, Count: id, Sum: float64(id),
+		CounterResetHint: hint,
+		Schema:           int32(b >> 32 & 1), ZeroThreshold: 0.001, ZeroCount: z, Count: cnt, Sum: float64(cnt),
+		PositiveSpans: spans, PositiveBuckets: deltas,
 	}
 }
 
 func mkFHist(p uint64) *histogram.FloatHistogram {
-	id := float64(p / 4)
-	return &histogram.FloatHistogram{
-		CounterResetHint: histogram.CounterResetHint(p % 4),
-		Schema:           0, ZeroThreshold: 0.001, ZeroCount: id, Count: id, Sum: id,
+	b, hint := p/4, histogram.CounterResetHint(p%4)
+	if b&hbStale != 0 {
+		return &histogram.FloatHistogram{CounterResetHint: hint, Sum: math.Float64frombits(value.StaleNaN)}
 	}
+	z, spans, cs, cnt := hbParts(b)
+	var bs []float64
+	for _, c := range cs {
+		bs = append(bs, float64(c))
+	}
+	return &histogram.FloatHistogram{
+		CounterResetHint: hint,
+		Schema:           int32(b >> 32 & 1), ZeroThreshold: 0.001, ZeroCount: float64(z), Count: float64(cnt), Sum: float64(cnt),
+		PositiveSpans: spans, PositiveBuckets: bs,
+	}
+}
+
+// hbEncode renders a decoded histogram (absolute bucket counts) back into a payload; empty buckets that a
+// recoded chunk added to the layout are dropped (present iff non-zero).
+func hbEncode(hint histogram.CounterResetHint, stale bool, schema int32, zth, z, cnt, sum float64, spans []histogram.Span, abs []float64, nneg int) uint64 {
+	if stale {
+		return hbStale*4 + uint64(hint)
+	}
+	var b uint64
+	bad := false
+	if z < 0 || z >= 1<<20 || z != math.Trunc(z) {
+		bad = true
+	} else {
+		b = uint64(z)
+	}
+	total := z
+	idx, k := int32(0), 0
+	for _, sp := range spans {
+		idx += sp.Offset
+		for j := uint32(0); j < sp.Length; j++ {
+			if k >= len(abs) {
+				bad = true
+				break
+			}
+			v := abs[k]
+			k++
+			if v != 0 {
+				if idx < 0 || idx > 2 || v < 0 || v > 15 || v != math.Trunc(v) {
+					bad = true
+				} else {
+					b |= uint64(v) << (20 + 4*uint(idx))
+				}
+			}
+			total += v
+			idx++
+		}
+	}
+	if k != len(abs) || nneg != 0 || schema < 0 || schema > 1 || zth != 0.001 || cnt != total || sum != total {
+		bad = true
+	}
+	if schema == 1 {
+		b |= hbSchema
+	}
+	if bad {
+		b |= hbBad
+	}
+	return b*4 + uint64(hint)
+}
+
+func histPayload(hh *histogram.Histogram) uint64 {
+	abs := make([]float64, len(hh.PositiveBuckets))
+	cur := int64(0)
+	for i, d := range hh.PositiveBuckets {
+		cur += d
+		abs[i] = float64(cur)
+	}
+	return hbEncode(hh.CounterResetHint, value.IsStaleNaN(hh.Sum), hh.Schema, hh.ZeroThreshold, float64(hh.ZeroCount), float64(hh.Count), hh.Sum,
+		hh.PositiveSpans, abs, len(hh.NegativeSpans)+len(hh.NegativeBuckets))
+}
+
+func fhistPayload(fh *histogram.FloatHistogram) uint64 {
+	return hbEncode(fh.CounterResetHint, value.IsStaleNaN(fh.Sum), fh.Schema, fh.ZeroThreshold, fh.ZeroCount, fh.Count, fh.Sum,
+		fh.PositiveSpans, fh.PositiveBuckets, len(fh.NegativeSpans)+len(fh.NegativeBuckets))
+}
+
+// ---- counter-histogram streams
+
+// ctrState is one point of a counter process: zero count and three bucket counts.
+type ctrState struct {
+	z      uint64
+	c      [3]uint64
+	schema uint64
+}
+
+func (s ctrState) body() uint64 {
+	return s.z | s.c[0]<<20 | s.c[1]<<24 | s.c[2]<<28 | s.schema<<32
+}
+
+// genCounterChunk returns the payloads of one VALID counter-histogram chunk of n samples (a sequence
+// chunks.ChunkFromSamples encodes into a single chunk without recoding): one schema, one fixed set of used
+// buckets (all counts > 0 from the first sample on), every count non-decreasing, optionally a suffix of
+// stale markers. style 0: random start and increments (independent of other chunks, so that the merged
+// stream of overlapping chunks has counter resets, disappearing buckets and schema changes inside the
+// overlap); style 1: counts are a fixed non-decreasing function of the timestamp (chunks of the same
+// process interleave without reset; different bucket sets then only recode).
+func genCounterChunk(r *h.Rng, ts []int64, base int64, style int, allowStale bool) []uint64 {
+	n := len(ts)
+	st := ctrState{schema: 0}
+	if r.Chance(15) {
+		st.schema = 1
+	}
+	var used [3]bool
+	for i := range used {
+		used[i] = r.Chance(50)
+	}
+	nStale := 0
+	if allowStale && r.Chance(25) {
+		nStale = 1 + r.Intn(2)
+		if nStale > n {
+			nStale = n
+		}
+		if r.Chance(10) {
+			nStale = n
+		}
+	}
+	out := make([]uint64, 0, n)
+	if style == 0 {
+		st.z = uint64(r.Intn(6))
+		for i := range used {
+			if used[i] {
+				st.c[i] = uint64(1 + r.Intn(5))
+			}
+		}
+	}
+	for k, t := range ts {
+		if k >= n-nStale {
+			out = append(out, hbStale*4+uint64(2*r.Intn(2)))
+			continue
+		}
+		if style == 1 {
+			d := uint64(t - base)
+			if t < base {
+				d = 0
+			}
+			st.z = d
+			for i := range used {
+				st.c[i] = 0
+				if used[i] {
+					st.c[i] = 1 + d/4
+					if st.c[i] > 15 {
+						st.c[i] = 15
+					}
+				}
+			}
+		} else if k > 0 {
+			st.z += uint64(r.Intn(3))
+			for i := range used {
+				if used[i] && st.c[i] < 15 && r.Chance(40) {
+					st.c[i]++
+				}
+			}
+		}
+		out = append(out, st.body()*4+uint64(2*r.Intn(2)))
+	}
+	return out
 }
 
 // csample implements chunks.Sample; histograms are built fresh on every access so that the
@@ -95,10 +296,10 @@ func readCur(it chunkenc.Iterator, vt chunkenc.ValueType) string {
 		return smp{t, 'f', math.Float64bits(v)}.String()
 	case chunkenc.ValHistogram:
 		t, hh := it.AtHistogram(nil)
-		return smp{t, 'h', hh.Count*4 + uint64(hh.CounterResetHint)}.String()
+		return smp{t, 'h', histPayload(hh)}.String()
 	case chunkenc.ValFloatHistogram:
 		t, fh := it.AtFloatHistogram(nil)
-		return smp{t, 'H', uint64(fh.Count)*4 + uint64(fh.CounterResetHint)}.String()
+		return smp{t, 'H', fhistPayload(fh)}.String()
 	}
 	return "unknown-type"
 }
@@ -342,7 +543,11 @@ func expandChunks(cs storage.ChunkSeries) string {
 			for vt := ci.Next(); vt != chunkenc.ValNone; vt = ci.Next() {
 				xs = append(xs, parseSamples(readCur(ci, vt))...)
 			}
-			parts = append(parts, fmt.Sprintf("%d/%d/%s", m.MinTime, m.MaxTime, showSamples(xs)))
+			first, last := "-", "-"
+			if len(xs) > 0 {
+				first, last = strconv.FormatInt(xs[0].t, 10), strconv.FormatInt(xs[len(xs)-1].t, 10)
+			}
+			parts = append(parts, fmt.Sprintf("%d/%d/%d/%s/%s/%s", m.MinTime, m.MaxTime, m.Chunk.NumSamples(), first, last, showSamples(xs)))
 		}
 		if it.Err() != nil {
 			status = "err"
@@ -657,7 +862,39 @@ func genChunkCase(c *h.Ctx, r *h.Rng) []string {
 	// a pool of chunks shared by all series of the case: identical and overlapping chunks are frequent
 	npool := 2 + r.Intn(5)
 	var pool [][]smp
+	// counter cases: most pool chunks are COUNTER (non-gauge) native histograms of one flavour whose windows
+	// overlap, so the compacting merger re-encodes merged streams that contain counter resets, used buckets
+	// that disappear, schema changes and stale markers inside the overlap
+	counterCase := r.Chance(45)
+	ctrKind := h.Pick(r, []byte{'h', 'H'})
+	if counterCase {
+		c.Count("gen:counter-hist-case")
+	}
 	for i := 0; i < npool; i++ {
+		if counterCase && r.Chance(75) {
+			off := base + int64(r.Intn(6))*5
+			n := 1 + r.Intn(6)
+			span := int64(3 + r.Intn(12))
+			if r.Chance(5) {
+				n, span = 60+r.Intn(80), 400
+				c.Count("gen:big-chunk")
+			}
+			kind := ctrKind
+			if r.Chance(8) {
+				kind = h.Pick(r, []byte{'h', 'H'})
+			}
+			ts := genTimes(r, n, off, span)
+			ps := genCounterChunk(r, ts, base, r.Intn(2), true)
+			xs := make([]smp, len(ts))
+			for k, t := range ts {
+				xs[k] = smp{t, kind, ps[k]}
+			}
+			if _, err := chunks.ChunkFromSamples(toChunkSamples(xs)); err != nil {
+				panic("generator: invalid counter chunk: " + err.Error() + " " + showSamples(xs))
+			}
+			pool = append(pool, xs)
+			continue
+		}
 		off := base + int64(r.Intn(6))*5
 		n := 1 + r.Intn(6)
 		span := int64(3 + r.Intn(12))
